@@ -457,6 +457,58 @@ package circuitbreaker
 //@   havoc
 //@   modifies cb.state, alloftype(halfOpenState), alloftype(countingStats), alloftype(timedStats), alloftype(stat), alloftype(bitset.BitSet), calls(cb.openListener), calls(cb.closeListener), calls(cb.stateChangedListener), calls(cb.DelayFunc), methodcalls
 
+// The standalone recording API classifies an outcome with the same conditions as an execution does (C12): exactly one
+// of recordFailure / recordSuccess, chosen by IsFailure of the given result and error.
+//@ macro breakerCondsWF(cb) = cb.BaseFailurePolicy != nil && (forall j int :: 0 <= j && j < len(cb.failureConditions) ==> cb.failureConditions[j] != nil)
+//@ func (*circuitBreaker).recordResult
+//@   requires cb != nil && held(mutexof(cb, "mtx")) && stateWF(cb) && breakerCondsWF(cb)
+//@   requires typeis(cb.state, *halfOpenState) ==> asref(cb.state, *halfOpenState).permittedExecutions <= 1073741824
+//@   premise breakerListenersDistinct(cb)
+//@   oldlet nf := 0
+//@   oldlet ns := 0
+//@   oldlet ncls := 0
+//@   oldlet isf := false
+//@   oldlet ce := err
+//@   oncall (*BaseFailurePolicy).IsFailure: ncls := ncls + 1; isf := callresult; ce := callarg_2
+//@   oldlet fexec := asiface(cb)
+//@   oncall (*circuitBreaker).recordFailure: nf := nf + 1; fexec := callarg_1
+//@   oncall (*circuitBreaker).recordSuccess: ns := ns + 1
+//@   ensures [C12.breaker.standalone_uses_conditions+C03.record.by_classification] ncls == 1 && ce == err && (isf ==> nf == 1 && ns == 0 && fexec == nil) && (!isf ==> ns == 1 && nf == 0)
+//@   ensures [C03.record.result_wf] stateWF(cb)
+//@   havoc
+//@   modifies cb.state, alloftype(halfOpenState), alloftype(countingStats), alloftype(timedStats), alloftype(stat), alloftype(bitset.BitSet), calls(cb.openListener), calls(cb.closeListener), calls(cb.stateChangedListener), calls(cb.DelayFunc), methodcalls
+//@ func (*circuitBreaker).RecordError
+//@   locks cb
+//@   inlinecalls (*circuitBreaker).recordResult
+//@   requires cb != nil && !held(mutexof(cb, "mtx")) && breakerCondsWF(cb)
+//@   premise breakerListenersDistinct(cb)
+//@   oldlet nf := 0
+//@   oldlet ns := 0
+//@   oldlet ncls := 0
+//@   oldlet isf := false
+//@   oldlet ce := err
+//@   oncall (*BaseFailurePolicy).IsFailure: ncls := ncls + 1; isf := callresult; ce := callarg_2
+//@   oncall (*circuitBreaker).recordFailure: nf := nf + 1
+//@   oncall (*circuitBreaker).recordSuccess: ns := ns + 1
+//@   ensures [C12.breaker.record_error_uses_conditions+C03.api.record_error] ncls == 1 && ce == err && (isf ==> nf == 1 && ns == 0) && (!isf ==> ns == 1 && nf == 0)
+//@   havoc
+//@   modifies cb.state, alloftype(halfOpenState), alloftype(countingStats), alloftype(timedStats), alloftype(stat), alloftype(bitset.BitSet), calls(cb.openListener), calls(cb.closeListener), calls(cb.stateChangedListener), calls(cb.DelayFunc), methodcalls
+//@ func (*circuitBreaker).RecordResult
+//@   locks cb
+//@   inlinecalls (*circuitBreaker).recordResult
+//@   requires cb != nil && !held(mutexof(cb, "mtx")) && breakerCondsWF(cb)
+//@   premise breakerListenersDistinct(cb)
+//@   oldlet nf := 0
+//@   oldlet ns := 0
+//@   oldlet ncls := 0
+//@   oldlet isf := false
+//@   oldlet ce := asiface(cb)
+//@   oncall (*BaseFailurePolicy).IsFailure: ncls := ncls + 1; isf := callresult; ce := callarg_2
+//@   oncall (*circuitBreaker).recordFailure: nf := nf + 1
+//@   oncall (*circuitBreaker).recordSuccess: ns := ns + 1
+//@   ensures [C12.breaker.record_result_uses_conditions+C03.api.record_result] ncls == 1 && ce == nil && (isf ==> nf == 1 && ns == 0) && (!isf ==> ns == 1 && nf == 0)
+//@   havoc
+//@   modifies cb.state, alloftype(halfOpenState), alloftype(countingStats), alloftype(timedStats), alloftype(stat), alloftype(bitset.BitSet), calls(cb.openListener), calls(cb.closeListener), calls(cb.stateChangedListener), calls(cb.DelayFunc), methodcalls
 //@ func (*circuitBreaker).RecordSuccess
 //@   locks cb
 //@   requires cb != nil && !held(mutexof(cb, "mtx"))
@@ -538,3 +590,10 @@ package circuitbreaker
 //@   ensures [C04.refused_records_nothing] ncalls(innerFn) == 0 ==> posts + postf == 0
 //@   havoc
 //@   modifies e.circuitBreaker.state, alloftype(halfOpenState), alloftype(countingStats), alloftype(timedStats), alloftype(stat), alloftype(bitset.BitSet), calls(innerFn), calls(e.openListener), calls(e.closeListener), calls(e.halfOpenListener), calls(e.stateChangedListener), calls(e.DelayFunc), calls(e.onSuccess), calls(e.onFailure), methodcalls
+
+// Metrics() hands out the breaker itself, whose getters take the lock; the unlocked eventMetrics view is only ever built
+// for listeners that run while the breaker holds its lock (C14: no unguarded view of the statistics escapes).
+//@ func (*circuitBreaker).Metrics
+//@   requires cb != nil
+//@   ensures [C14.metrics_view_is_the_locked_breaker+C03.api.metrics_is_the_breaker] result == asiface(cb)
+//@   modifies nothing
